@@ -96,26 +96,35 @@ Proof. unfold node_h, dec_h, el_is_H. simpl. lia. Qed.
 Lemma bounded_set_node (g : gr) mx n f : bounded g mx -> bounded (set_node g n f) mx.
 Proof. intros B m. rewrite node_ids_set_node. apply B. Qed.
 
-Lemma hexp_step_props (st : gr * N) heavy :
+Lemma node_h_dec_h_its c a : node_h (dec_h_its c a) = node_h a - c.
+Proof. unfold node_h, dec_h_its, el_is_H. simpl. lia. Qed.
+
+(** the its=False instance is the loop body the later proofs talk about *)
+Lemma hexp_step_gen_false st heavy : hexp_step_gen false st heavy = hexp_step st heavy.
+Proof. destruct st as [g mx]. unfold hexp_step_gen, hexp_step, hexp_count. destruct (label g heavy); reflexivity. Qed.
+
+Lemma hexp_step_props its (st : gr * N) heavy :
   bounded (fst st) (snd st) ->
-  bounded (fst (hexp_step st heavy)) (snd (hexp_step st heavy)) /\
-  total_h (fst (hexp_step st heavy)) = total_h (fst st).
+  bounded (fst (hexp_step_gen its st heavy)) (snd (hexp_step_gen its st heavy)) /\
+  total_h (fst (hexp_step_gen its st heavy)) = total_h (fst st).
 Proof.
-  destruct st as [g mx]. simpl. intros B. unfold hexp_step.
+  destruct st as [g mx]. simpl. intros B. unfold hexp_step_gen.
   destruct (label g heavy) as [a|] eqn:La; [|split; [exact B|reflexivity]].
-  destruct (Z.leb_spec (dflt (a_hc a) 0) 0) as [Hc|Hc]; [split; [exact B|reflexivity]|].
+  cbv zeta. set (c := hexp_count its a).
+  destruct (Z.leb_spec c 0) as [Hc|Hc]; [split; [exact B|reflexivity]|].
   assert (has_node g heavy = true) as Hh by (apply has_node_label; eauto).
-  pose proof (add_hs_props (Z.to_nat (dflt (a_hc a) 0)) heavy g mx B Hh) as P. cbv zeta in P.
-  destruct (add_hs (Z.to_nat (dflt (a_hc a) 0)) heavy (g, mx)) as [g1 mx1]. simpl in P. destruct P as (B1 & L1 & T1).
+  pose proof (add_hs_props (Z.to_nat c) heavy g mx B Hh) as P. cbv zeta in P.
+  destruct (add_hs (Z.to_nat c) heavy (g, mx)) as [g1 mx1]. simpl in P. destruct P as (B1 & L1 & T1).
   simpl. split; [apply bounded_set_node; exact B1|].
-  rewrite (hsum_set_node g1 heavy _ a) by congruence. rewrite node_h_dec_h, T1. lia.
+  rewrite (hsum_set_node g1 heavy _ a) by congruence.
+  destruct its; [rewrite node_h_dec_h_its|rewrite node_h_dec_h]; rewrite T1; lia.
 Qed.
 
-Lemma hexp_fold_props ns : forall st : gr * N,
-  bounded (fst st) (snd st) -> total_h (fst (fold_left hexp_step ns st)) = total_h (fst st).
+Lemma hexp_fold_props its ns : forall st : gr * N,
+  bounded (fst st) (snd st) -> total_h (fst (fold_left (hexp_step_gen its) ns st)) = total_h (fst st).
 Proof.
   induction ns as [|n r IH]; intros st B; simpl; [reflexivity|].
-  destruct (hexp_step_props st n B) as (B1 & T1). rewrite IH by exact B1. exact T1.
+  destruct (hexp_step_props its st n B) as (B1 & T1). rewrite IH by exact B1. exact T1.
 Qed.
 
 Lemma gnodes_normalize (g : gr) : gnodes (normalize_edge_orders g) = gnodes g.
@@ -127,10 +136,17 @@ Theorem h_total_explicit (g : gr) (nodes : option (list N)) (its : bool) :
 Proof.
   unfold h_to_explicit.
   set (ns := match nodes with Some [] | None => node_ids g | Some l => l end).
-  assert (total_h (fst (fold_left hexp_step ns (copy g, max_id g))) = total_h g) as E.
+  assert (total_h (fst (fold_left (hexp_step_gen its) ns (copy g, max_id g))) = total_h g) as E.
   { rewrite hexp_fold_props; [reflexivity|]. simpl. intros n H. apply (bounded_max_id g). exact H. }
   destruct its; [unfold total_h in *; rewrite gnodes_normalize|]; exact E.
 Qed.
+
+(** with its=False: the loop of the later proofs *)
+Lemma fold_hexp_false l : forall st, fold_left (hexp_step_gen false) l st = fold_left hexp_step l st.
+Proof. induction l as [|n r IH]; intros st; [reflexivity|]. simpl. rewrite hexp_step_gen_false. apply IH. Qed.
+Lemma h_to_explicit_false (g : gr) (nodes : option (list N)) :
+  h_to_explicit g nodes false = fst (fold_left hexp_step (exp_nodes g nodes) (copy g, max_id g)).
+Proof. unfold h_to_explicit, exp_nodes. cbv zeta. rewrite fold_hexp_false. reflexivity. Qed.
 
 (** ** h_to_implicit *)
 Lemma is_H_set_node_inc (g : gr) x m : is_H (set_node g x inc_h) m = is_H g m.
